@@ -504,14 +504,34 @@ def alias(root, params):
     def immut(i):
         return i in modes and modes[i] == "BindingMode(No, Not)" and i not in assigned
 
+    def written_in(nodes, i):
+        for t in nodes:
+            for x in all_nodes(t):
+                if x.get("k") in ("assign", "assignop"):
+                    l = hir.simp(x["l"])
+                    if isinstance(l, dict) and l.get("k") == "local" and l.get("id") == i:
+                        return True
+                if x.get("k") == "ref" and x.get("mut"):
+                    l = hir.simp(x["e"])
+                    if isinstance(l, dict) and l.get("k") == "local" and l.get("id") == i:
+                        return True
+                if x.get("k") == "call" and str(x.get("recv_adj_ty", "")).startswith("&mut") and x.get("args"):
+                    l = hir.simp(x["args"][0])
+                    if isinstance(l, dict) and l.get("k") == "local" and l.get("id") == i:
+                        return True
+        return False
+
     def fn(n):
         if n.get("k") != "block":
             return n
         out = []
-        for s in n.get("stmts", []):
+        seq = n.get("stmts", [])
+        for idx, s in enumerate(seq):
             if isinstance(s, dict) and s.get("k") == "let" and "els" not in s and s.get("pat", {}).get("k") == "pbind" and "init" in s:
                 init = hir.simp(s["init"])
-                if isinstance(init, dict) and init.get("k") == "local" and immut(s["pat"].get("id")) and immut(init.get("id")):
+                rest = seq[idx + 1:] + ([n["expr"]] if "expr" in n else [])
+                if isinstance(init, dict) and init.get("k") == "local" and immut(s["pat"].get("id")) and \
+                        (immut(init.get("id")) or (init.get("id") in modes and "Ref" not in modes[init.get("id")] and not written_in(rest, init.get("id")))):
                     ren[s["pat"]["id"]] = init
                     continue
             out.append(s)
